@@ -508,7 +508,8 @@ struct Value {
         // Bech32(m) decoding
         int version = bech[0]; // The first 5 bit symbol is the witness version (0-16)
         // data = r.second;
-        printf("(bech32%s HRP = %s)\n", result.encoding == bech32::Encoding::BECH32M ? "m" : "", result.hrp.c_str());
+        // a note for the person at the terminal, not part of the result: through the log channel (silent in batch mode), not stdout
+        btc_logf("(bech32%s HRP = %s)\n", result.encoding == bech32::Encoding::BECH32M ? "m" : "", result.hrp.c_str());
         type = T_DATA;
         data.clear();
         // The rest of the symbols are converted witness program bytes.
